@@ -74,6 +74,11 @@ def generate(rng: random.Random, tier: str, seed: int) -> dict:
         # a parameter built from a `model:` descriptor: a stateful object, new for every run; what the trace says about it
         # must not depend on which run (or which memory address) it was
         subject = dict(subject, nodes=subject["nodes"] + [{"processor": "SvUseModel", "parameters": {"model": "model:SvOnlineMean:bias=1.5"}}])
+    if fail is None and a["truth"][-1]["out"] == "float" and rng.random() < 0.1:
+        # free-form text as a node parameter: non-ASCII, control characters, and a str with a lone surrogate (what os.listdir /
+        # os.fsdecode return for a file name that is not valid UTF-8) - all of it lands in processor.parameters of the SER
+        text = rng.choice(["na\u00efve \u2615", "result_\udcff.txt", "tab\there", "two\u2028lines", "\U0001F600 ok"])
+        subject = dict(subject, nodes=subject["nodes"] + [{"processor": "SvLabel", "parameters": {"label": text}}])
     b = gen.gen_pipeline(rng)
     equal_values = fail is None and py_seed is None and rng.random() < 0.06
     if equal_values:
